@@ -1,6 +1,7 @@
 package main
 
 import (
+	"go/types"
 	"strings"
 )
 
@@ -37,12 +38,17 @@ func runC36(c *Ctx) {
 			return e.Callee != nil && e.Callee.Name() == "InsertData" && len(e.Args) > 0 && e.Args[0] == table
 		})
 	}
+	// unexported helpers of the tracer itself (an extracted block of one of its operations) are interpreted in place
+	inl := func(g *types.Func) bool {
+		sg, _ := g.Type().(*types.Signature)
+		return sg != nil && sg.Recv() != nil && !g.Exported() && strings.HasSuffix(sg.Recv().Type().String(), "tracing.DBTracer")
+	}
 	known := Role{Name: "known", IsBool: true, Match: func(a *Atom) bool { return strings.HasPrefix(a.Key, "ok(") && strings.Contains(a.Key, "tracingTasks[") }}
 	tracing := Role{Name: "tracing", IsBool: true, Match: func(a *Atom) bool { return strings.HasSuffix(a.Key, ".isTracing") }}
 	marked := Role{Name: "marked", IsBool: true, Match: func(a *Atom) bool { return strings.HasSuffix(a.Key, ".toRecord") }}
 
 	if f := c.fn("start-task", rel, "DBTracer", "StartTask"); f != nil {
-		t := ExtractTable(p, f, TableConfig{})
+		t := ExtractTable(p, f, TableConfig{Inline: inl})
 		CheckTable(c, "start-task", "tracing.DBTracer.StartTask", p.Decl(f).Pos(), t, []Role{known, tracing}, nil, nil, func(v RoleVals, r *Row) (bool, string) {
 			if r.Out.Kind == "panic" {
 				return true, ""
@@ -83,7 +89,7 @@ func runC36(c *Ctx) {
 		})
 	}
 	if f := c.fn("start-tracing", rel, "DBTracer", "StartTracing"); f != nil {
-		t := ExtractTable(p, f, TableConfig{})
+		t := ExtractTable(p, f, TableConfig{Inline: inl})
 		ne := Role{Name: "running", IsBool: true, Match: func(a *Atom) bool {
 			return strings.HasPrefix(a.Key, "range-nonempty(") && strings.Contains(a.Key, "tracingTasks")
 		}}
@@ -124,7 +130,7 @@ func runC36(c *Ctx) {
 		})
 	}
 	if f := c.fn("end-task", rel, "DBTracer", "EndTask"); f != nil {
-		t := ExtractTable(p, f, TableConfig{LoopsOnce: true})
+		t := ExtractTable(p, f, TableConfig{LoopsOnce: true, Inline: inl})
 		ms := Role{Name: "milestones", IsBool: true, Match: func(a *Atom) bool {
 			return strings.HasPrefix(a.Key, "range-nonempty(") && strings.HasSuffix(a.Key, ".Milestones)")
 		}}
@@ -192,12 +198,14 @@ func runC36(c *Ctx) {
 			})
 	}
 	if f := c.fn("add-milestone", rel, "DBTracer", "AddMilestone"); f != nil {
-		t := ExtractTable(p, f, TableConfig{LoopsOnce: true})
+		t := ExtractTable(p, f, TableConfig{LoopsOnce: true, Inline: inl})
 		ne := Role{Name: "has", IsBool: true, Match: func(a *Atom) bool {
 			return strings.HasPrefix(a.Key, "range-nonempty(") && strings.HasSuffix(a.Key, ".Milestones)")
 		}}
-		et := Role{Name: "et", Match: func(a *Atom) bool { return strings.Contains(a.Key, "value-of(") && strings.HasSuffix(a.Key, ".Time") }}
-		mt := Role{Name: "mt", Match: func(a *Atom) bool { return !strings.Contains(a.Key, "value-of(") && strings.HasSuffix(a.Key, ".Time") }}
+		// the scanned element is the range value or an indexed element of the list
+		scanned := func(k string) bool { return strings.Contains(k, "value-of(") || strings.Contains(k, ".Milestones[") }
+		et := Role{Name: "et", Match: func(a *Atom) bool { return scanned(a.Key) && strings.HasSuffix(a.Key, ".Time") }}
+		mt := Role{Name: "mt", Match: func(a *Atom) bool { return !scanned(a.Key) && strings.HasSuffix(a.Key, ".Time") }}
 		CheckTable(c, "add-milestone", "tracing.DBTracer.AddMilestone", p.Decl(f).Pos(), t, []Role{known, ne, et, mt}, []int{0, 1, 2},
 			func(v RoleVals) bool { return v.B("known") || !v.B("has") },
 			func(v RoleVals, r *Row) (bool, string) {
@@ -207,7 +215,19 @@ func runC36(c *Ctx) {
 				app := r.Stores(func(e *Effect) bool {
 					return strings.HasSuffix(e.RecvS, ".Milestones") && strings.HasPrefix(e.Args[0], "append(")
 				})
-				dup := v.B("has") && v["et"] == v["mt"]
+				has := v.B("has")
+				// index-loop form of the scan: "non-empty" is the length the loop condition read
+				if r.Atom(ne.Match) == nil {
+					if la := r.Atom(func(a *Atom) bool {
+						return !a.IsBool && strings.HasPrefix(a.Key, "len(") && strings.HasSuffix(a.Key, ".Milestones)")
+					}); la != nil {
+						has = la.I > 0
+						if has && !v.B("known") {
+							return true, "" // a record created by this call has no milestones: infeasible
+						}
+					}
+				}
+				dup := has && v["et"] == v["mt"]
 				if dup && len(app) != 0 {
 					return false, "at most one milestone per instant may be kept for a task"
 				}
@@ -223,7 +243,7 @@ func runC36(c *Ctx) {
 			})
 	}
 	if f := c.fn("add-tag", rel, "DBTracer", "AddTaskTag"); f != nil {
-		t := ExtractTable(p, f, TableConfig{})
+		t := ExtractTable(p, f, TableConfig{Inline: inl})
 		CheckTable(c, "add-tag", "tracing.DBTracer.AddTaskTag", p.Decl(f).Pos(), t, []Role{known}, nil, nil, func(v RoleVals, r *Row) (bool, string) {
 			if !lockHeld(r) {
 				return false, "must hold the mutex"
@@ -243,7 +263,7 @@ func runC36(c *Ctx) {
 		})
 	}
 	if f := c.fn("stop-tracing", rel, "DBTracer", "StopTracing"); f != nil {
-		t := ExtractTable(p, f, TableConfig{})
+		t := ExtractTable(p, f, TableConfig{Inline: inl})
 		CheckTable(c, "stop-tracing", "tracing.DBTracer.StopTracing", p.Decl(f).Pos(), t, nil, nil, nil, func(v RoleVals, r *Row) (bool, string) {
 			if !lockHeld(r) {
 				return false, "must hold the mutex"
